@@ -55,7 +55,7 @@ def required_counters(tier):
         "nested_unhooked_inside_hooked": 30,
         "nested_hooked_inside_unhooked": 10,
         "pyc_files_created": 200,
-        "runs_with_cache_present": 100, "runs_with_failing_hooked_import": 20, "runs_read_only_cache": 20, "in_process_reimport": 5, "in_process_edit_and_reimport": 5, "runs_with_checking_disabled": 15, "source_edits.same_mtime_other_size": 10, "in_process_rehook_with_other_checker": 5, "histories.sources_older_than_the_library": 20,
+        "runs_with_cache_present": 100, "runs_with_failing_hooked_import": 20, "runs_read_only_cache": 20, "in_process_reimport": 5, "in_process_edit_and_reimport": 5, "runs_with_checking_disabled": 15, "source_edits.same_mtime_other_size": 10, "in_process_rehook_with_other_checker": 5, "histories.sources_older_than_the_library": 20, "runs_python_O": 30,
     }
 
 
@@ -216,7 +216,12 @@ def run_history(rec, rng, key):
             env["PYTHONPYCACHEPREFIX"] = ""
             env.pop("PYTHONPYCACHEPREFIX", None)
             spec = {"root": root, "ops": ops, "mode": "api", "extra": None}
-            r = subprocess.run([sys.executable, "-c", "import sys; sys.dont_write_bytecode = %s; sys.argv = ['c11_child', sys.argv[1]]; import runpy; runpy.run_path(%r, run_name='__main__')" % (nowrite, C11.CHILD), json.dumps(spec)], capture_output=True, text=True, env=env, timeout=600, cwd=root)
+            # some runs use an optimizing interpreter (python -O / -OO): ordinary modules then read and write
+            # *.opt-1.pyc / *.opt-2.pyc, and the hook's cache entries must stay apart from those as well
+            optimize = rng.choice((0, 0, 0, 0, 1, 1, 2))
+            if optimize:
+                rec.count("runs_python_O")
+            r = subprocess.run([sys.executable] + (["-O"] if optimize == 1 else ["-OO"] if optimize == 2 else []) + ["-c", "import sys; sys.dont_write_bytecode = %s; sys.argv = ['c11_child', sys.argv[1]]; import runpy; runpy.run_path(%r, run_name='__main__')" % (nowrite, C11.CHILD), json.dumps(spec)], capture_output=True, text=True, env=env, timeout=600, cwd=root)
             try:
                 out = json.loads(r.stdout.strip().splitlines()[-1])
             except Exception:
@@ -227,7 +232,7 @@ def run_history(rec, rng, key):
             rec.count("pyc_files_created", len(created))
             if before:
                 rec.count("runs_with_cache_present")
-            history.append({"run": ri, "ops": ops, "edited": edited, "read_only_cache": nowrite, "JAXTYPING_DISABLE": disabled, "pyc_created": created[:12]})
+            history.append({"run": ri, "ops": ops, "edited": edited, "python_optimize": optimize, "read_only_cache": nowrite, "JAXTYPING_DISABLE": disabled, "pyc_created": created[:12]})
             case = {"rngkey": key, "forest": mods, "history": history}
             if "error" in out:
                 rec.inconclusive.append("run failed: " + out["error"])
